@@ -1,16 +1,25 @@
 import numpy as np
 
+def _dtype(array):
+    # np.can_cast does not accept Python scalars in NumPy >= 2
+    try:
+        return array.dtype
+    except AttributeError:
+        return np.asarray(array).dtype
+
 def inexact_type(array):
     try:
-        return (not np.can_cast(array, int) and
-                (np.can_cast(array, np.dtype("complex")) or
-                 np.can_cast(array, float)))
-    except TypeError:
+        dtype = _dtype(array)
+        return (not np.can_cast(dtype, int) and
+                (np.can_cast(dtype, np.dtype("complex")) or
+                 np.can_cast(dtype, float)))
+    except (TypeError, ValueError):
         return False
 
 def is_linalg_type(array):
     try:
-        return (np.can_cast(array, np.dtype("complex")) or
-                np.can_cast(array, float))
-    except TypeError:
+        dtype = _dtype(array)
+        return (np.can_cast(dtype, np.dtype("complex")) or
+                np.can_cast(dtype, float))
+    except (TypeError, ValueError):
         return False
